@@ -16,7 +16,8 @@ RULE = ('FastFourierOp: seeded rank 1-3 shapes, dim subsets, recon/encoding size
         'non-Cartesian rational trajectories: every sample against the explicit encoding sum of the property statement, the constant c fitted and '
         'compared with the size-only prediction, FFT-vs-NUFFT dispatch compared on the same integer trajectory. Non-trivial = at least one transformed '
         'axis of size >= 2; distinct by case hash.')
-TRUSTED_BASE = ['torch.fft (fftn/ifftn/fftshift/ifftshift) and torchkbnufft as oracles; the NUFFT meeting its specification '
+TRUSTED_BASE = ['translator harness/translate/fourier.py (ast -> Gallina for the sampling index arithmetic and the shift/FFT nesting; fail-closed)',
+                'torch.fft (fftn/ifftn/fftshift/ifftshift) and torchkbnufft as oracles; the NUFFT meeting its specification '
                 '(non-uniform DFT up to ~1e-3) is validated at 2e-2, not proved',
                 'the Kronecker combination of per-axis phase tables is done in the harness (the per-axis lifting is C01_along_axis)']
 ASSUMPTIONS = ['complex exponentials are evaluated in float64 by the harness from the integer exponents of the model']
@@ -332,6 +333,28 @@ def cmp_fourier(c, o, m):
     if M.shape[0] != y.shape[0] or np.abs(M @ x - y).max() > 1e-9 * max(1.0, np.abs(y).max()):
         return f'FourierOp output differs from the symbolic FFT-path model (max {np.abs(M @ x - y).max() if M.shape[0] == y.shape[0] else "shape"})'
     return None
+
+
+
+def translate(ctx):
+    """Regenerate Gen/fourier_gen.v (index arithmetic of CartesianSamplingOp, shift/transform nesting of FastFourierOp) and re-check
+    the obligations gen_* = model."""
+    from translate import fourier
+    out = vlib.COQ / 'Gen' / 'fourier_gen.v'
+    out.parent.mkdir(exist_ok=True)
+    ok, why = fourier.write(out)
+    ctx.extra.setdefault('coverage', {})['translator_available'] = ok
+    if not ok:
+        ctx.notes.append(f'translator harness/translate/fourier.py failed closed ({why})')
+        ctx.problem('proof', 'gen_fourier', None, f'CartesianSamplingOp.py / FastFourierOp.py are outside the translated subset ({why}): the regenerated obligations cannot be stated')
+        return
+    ctx.obligations += fourier.N_OBLIGATIONS
+    rc, so, se = vlib.coqc_file(out)
+    if rc == 0:
+        ctx.discharged += fourier.N_OBLIGATIONS
+    else:
+        ctx.problem('proof', 'gen_fourier', None,
+                    'regenerated obligation gen_*_ok (sampling index / FFT shift nesting == model) no longer proves: ' + (se or so)[-700:])
 
 
 FAMILIES = [
